@@ -52,6 +52,8 @@ class SourceDataWrapper(ABC):
 
         if self._from_idx >= total_n_rows:
             raise ValueError(f"Starting index {self._from_idx} too large for total n. rows {total_n_rows}")
+        if self._from_idx < 0 or self._to_idx > total_n_rows:
+            raise ValueError(f"Rows {self._from_idx} to {self._to_idx} do not lie within the {total_n_rows} rows of the data")
         if self._n_rows < 1:
             raise ValueError(f"Starting index {self._from_idx} and end index {self._to_idx} do not yield a positive "
                              f"number of rows to be loaded")
